@@ -36,7 +36,8 @@ func (world) Describe() super.Description {
 		Rule:        "A case = (expression string, simulated data tree, context node) drawn from one tape: 60% grammar-directed tree-aware expressions, 30% the same damaged by byte/token operators, 10% raw byte/token strings; for a quarter of the cases every prefix of the expression (the text ending at every byte) is offered to all five constructors as well. The string is offered to all five machine constructors (expr, expr+custom functions, path_eval, path_eval+custom+user checker, leafref) with nil / working / failing prefix-map callbacks. Every machine that builds is run fault-free against the FaultTree to learn N = number of data-tree callbacks, then once per k in 1..N with exactly the k-th callback failing (exhaustive single-fault enumeration for that case), then with tape-drawn multi-fault sets. distinct_nontrivial = distinct (expression, tree, context, fault position) tuples in which a machine was built, ran, made at least one data-tree callback and the injected fault actually fired.",
 		DistinctSet: "faulted_runs",
 		Assumptions: []string{
-			"FaultTree is a well-behaved xpath.Entry: a failing call returns (nil, error); it never returns (nil, nil) or a nil Datum",
+			"FaultTree never returns (nil, nil) or a nil Datum from a SUCCEEDING call",
+			"a failing data-tree call returns a non-nil error; what it returns next to it varies: nil (most runs), a usable non-nil entry/value, or a typed nil pointer",
 			"a data-tree error counts as 'carried' when Result.GetError() is non-nil and its text contains the unique sentinel of one of the errors the tree returned during that run",
 			"quoting oracle: the build error text must contain the expression verbatim once and, elsewhere, two pieces p,q with p+q = expression separated by a short marker",
 			"single-fault enumeration is exhaustive per sampled case; machines, trees and contexts are sampled",
@@ -519,6 +520,11 @@ func (world) RunCase(t *tape.Tape, st *super.Stats) *super.Violation {
 				}
 			}
 			// exhaustive single-fault enumeration
+			errShape := 0
+			if t.Rare(4) {
+				errShape = 1 + t.Draw(2) // the failing call also hands back a usable result / a typed nil pointer
+				inc("reach:tree_error_with_non_nil_result")
+			}
 			errText := 0
 			if t.Rare(6) {
 				errText = 1 + t.Draw(3) // a tree whose errors have an empty / blank / newline-terminated text
@@ -528,6 +534,7 @@ func (world) RunCase(t *tape.Tape, st *super.Stats) *super.Violation {
 				tree.Reset()
 				tree.FailAt = map[int]bool{k: true}
 				tree.ErrText = errText
+				tree.ErrShape = errShape
 				fo := safeRun(b.m, ck, cur, context.Background())
 				inc("run:single_fault")
 				fired := false
@@ -563,6 +570,27 @@ func (world) RunCase(t *tape.Tape, st *super.Stats) *super.Violation {
 					return v
 				}
 				intactOrRestore(tree, st)
+			}
+			// the caller's Go context: cancelled before the run, or cancelled while callback k is in progress
+			// (the callback itself succeeds). Whatever the library makes of it, the run must still end
+			// with a value or an error.
+			if t.Rare(3) {
+				for _, k := range []int{0, 1 + t.Draw(n)} {
+					tree.Reset()
+					gctx, cancel := context.WithCancel(context.Background())
+					if k == 0 {
+						cancel()
+					} else {
+						tree.CancelAt, tree.Cancel = k, cancel
+					}
+					co := safeRun(b.m, ck, cur, gctx)
+					cancel()
+					inc("fault:ctx-cancelled")
+					if v := judgeRun(b.g.name, co, tree, caseDesc, fmt.Sprintf("Go context cancelled (at callback %d; 0 = before the run)", k)); v != nil {
+						return v
+					}
+					intactOrRestore(tree, st)
+				}
 			}
 			// multi-fault runs driven by the tape
 			for r := t.Draw(3); r > 0; r-- {
